@@ -130,6 +130,36 @@ def run_roundtrip(chk, items, stream, stats):
     return rt, pc, m_rt, m_pc
 
 
+def run_mixed_styles(chk, rng, n, stats):
+    """Two trees printed in two DIFFERENT styles (in particular different quote marks, boolean spellings, blanks) and
+    concatenated into one template: what a value means must not depend on what was written before it in the same text."""
+    texts, expects, metas = [], [], []
+    for i in range(n):
+        t1, t2 = gen_pat(rng, 1 + i % 3), gen_pat(rng, 1 + (i // 3) % 3)
+        s1 = gen_style(rng)
+        s2 = dict(gen_style(rng), dq=not s1["dq"])
+        if i % 2:
+            # make sure the second half really contains strings with both quote marks and backslashes
+            t2 = t2 + [("tag", None, "T", [("s", rng.choice(["a'b", 'a"b', "\\x", "6\" nail", "it's", "\\'", '\\"', "{|}"]))], [], None)]
+        text = print_pat(s1, t1) + print_pat(s2, t2)
+        both = list(t1) + list(t2)
+        merged = []
+        for e in both:
+            if merged and merged[-1][0] == "raw" and e[0] == "raw":
+                merged[-1] = ("raw", merged[-1][1] + e[1])
+            else:
+                merged.append(e)
+        texts.append(text); expects.append(merged); metas.append({"styles": [s1, s2]})
+    results = real_parse_many(texts)
+    for text, exp, r, m in zip(texts, expects, results, metas):
+        chk.count(("mixed", text))
+        stats["mixed_style_texts"] = stats.get("mixed_style_texts", 0) + 1
+        if r[0] != "acc" or norm(r[1]) != norm(exp):
+            chk.oracle_fail("two well-formed templates written in different styles and concatenated do not parse to the concatenated tree: "
+                            "got %s" % (str(r[:2])[:300],), {"stream": "mixed-styles", "text": text, "tree": tplgen.jsonable(exp), "styles": m["styles"]})
+    return run_texts(chk, texts, "mixed-styles", stats)
+
+
 def run_texts(chk, texts, stream, stats):
     results = real_parse_many(texts)
     pc, m_pc = [], []
@@ -253,6 +283,8 @@ def run(chk):
         add(run_roundtrip(chk, [(t, gen_style(rng)) for t in small], "small-trees", stats))
         one = [([("raw", s)], DEFAULT_STYLE) for s in tplgen.small_texts(3)]
         add(run_roundtrip(chk, one, "small-texts", stats))
+
+    add(run_mixed_styles(chk, rng, 6000 if thorough else 800, stats))
 
     # B: arbitrary texts
     seqs = list(tplgen.all_lexeme_sequences(4 if thorough else 3))
